@@ -1,6 +1,10 @@
 //! Transaction manager.
 
+#[cfg(not(kani))]
 use std::collections::HashSet;
+// verification builds (`cargo kani`): association-list stand-in, see grafeo_common::utils::kani_shim
+#[cfg(kani)]
+use grafeo_common::utils::hash::FxHashSet as HashSet;
 use std::sync::atomic::{AtomicU64, Ordering};
 
 use grafeo_common::types::{EdgeId, EpochId, NodeId, TxId};
